@@ -87,7 +87,7 @@ fn run_store(b: u64, kind: &str, sent: usize, arr: &[i64], seed: u64, reverse: b
             return if code == 0 {
                 Reply::One(krpc::response(&m.tid, &me.id, B::dict(), Some(&w.from)), delay)
             } else {
-                Reply::One(krpc::error(&m.tid, code, "rejected"), delay)
+                Reply::One(krpc::error(&m.tid, code, &krpc::error_text(code, me.idx)), delay)
             };
         }
         if q == "get" || q == "get_peers" || q == "get_signed_peers" || q == "find_node" {
